@@ -198,6 +198,12 @@ impl SendBuffer {
         &&& self.offset < 0x4000_0000_0000_0000
         &&& forall|v: u64| #[trigger] self.retransmits.view().contains(v) ==> v < self.unsent
     }
+    /// caller discipline (Connection acknowledges a range only through the one in-flight packet that carries it, and a range is queued
+    /// for retransmission only once that packet is declared lost): nothing queued for retransmission, and nothing unsent, lies below the
+    /// first stored offset
+    pub open spec fn rwf(&self) -> bool {
+        self.base() <= self.unsent && forall|v: u64| #[trigger] self.retransmits.view().contains(v) ==> self.base() <= v
+    }
     pub open spec fn acks_wf(&self) -> bool {
         forall|v: u64| #[trigger] self.acks.view().contains(v) ==> self.base() <= v < self.offset
     }
@@ -309,6 +315,8 @@ impl SendBuffer {
             // into max_len; a frame without a length field fills max_len exactly (it runs to the end of the packet)
             (res.0.end - res.0.start) + osize(res.0.start) + (if res.1 { 8int } else { 0int }) <= max_len,
             !res.1 ==> (res.0.end - res.0.start) + osize(res.0.start) == max_len,
+            // what is handed out is still stored, provided nothing that is queued for retransmission has been acknowledged (rwf)
+            old(self).rwf() ==> final(self).rwf() && (res.0.start < res.0.end ==> final(self).base() <= res.0.start),
             // either a retransmission: exactly the returned range leaves the retransmit set, new data untouched
             old(self).retransmits.view() != ISet::<u64>::empty() ==> (
                 final(self).unsent == old(self).unsent
@@ -361,7 +369,7 @@ impl SendBuffer {
             proof {
                 lemma_prefix_len_mono(self.unacked_segments@, it.index@ + 1, self.unacked_segments@.len() as int);
             }
-//@ replace return &segment[start..end.min(segment.len())]; => let res = &segment[start..end.min(segment.len())]; proof { assert(*segment == self.unacked_segments@[it.index@]); lemma_slice_matches(self.unacked_segments@, it.index@, start as int, res@, self.base(), offsets.start as int); } return res;
+//@ replace return &segment[start..end.min(segment.len())]; => let res = &segment[start..end.min(segment.len())]; proof { assert(*segment == self.unacked_segments@[it.index@]); lemma_slice_matches(self.unacked_segments@, it.index@, start as int, res@, self.base(), offsets.start as int); assert(self.base() + self.stored().len() == self.offset); assert(self.stored() == concat(self.unacked_segments@)); } return res;
 //@ end
 
 //@ extract quinn-proto/src/connection/send_buffer.rs :: impl SendBuffer::fn retransmit
